@@ -233,14 +233,25 @@ def c19_points(tier, seed):
                 "shapes against a direct row-by-row evaluation; non-trivial = distinct (rank, some row violated, all satisfied)")
     rng = random.Random(seed + 121)
     n = 200 if tier == "quick" else 2000
+    _lay_n = 0
     for _ in range(n):
         p = _rand_poly(rng, rng.randint(1, 3), rng.randint(1, 3))
         m = p.shape[1] - 1
         A, b = np.asarray(p.A), np.asarray(p.b)
         w = _dump(p)
+        _lay_n += 1
         for rank in (1, 2, 3):
             shape = {1: (m,), 2: (rng.randint(1, 3), m), 3: (rng.randint(1, 2), rng.randint(1, 3), m)}[rank]
             pts = np.array([rng.randint(-3, 3) for _ in range(int(np.prod(shape)))], dtype=np.int64).reshape(shape)
+            # same values under other memory layouts (no draw from rng: the stream of inputs stays what it was):
+            # Fortran order, and a strided view into a larger buffer
+            _lay = (_lay_n + rank) % 3          # every rank meets every layout as the outer loop advances
+            if _lay == 1:
+                pts = np.asfortranarray(pts)
+            elif _lay == 2:
+                big = np.zeros(tuple(2 * d for d in shape), dtype=np.int64)
+                big[tuple(slice(None, None, 2) for _ in shape)] = pts
+                pts = big[tuple(slice(None, None, 2) for _ in shape)]
             sat = lambda x: [bool(int(A[i].dot(x)) >= int(b[i])) for i in range(A.shape[0])]
             try:
                 got_s = np.asarray(p.ineqs_satisfied(pts))
